@@ -341,7 +341,9 @@ const zz07NumValues = 15
 
 func zz07Name(i, nameLen int, sym bool) string {
 	if sym {
-		return string(vrt.Bytes("n"+zz07Itoa(i), nameLen))
+		b := vrt.Bytes("n"+zz07Itoa(i), nameLen)
+		vrt.Assume(zzspec.InAlphabet(b, 1)) // includes '"', '\\' and '\n', whose escapes TrimSuffixString must skip
+		return string(b)
 	}
 	b := make([]byte, nameLen)
 	for j := range b {
@@ -355,13 +357,19 @@ func zz07Name(i, nameLen int, sym bool) string {
 // does), then per field: the name token, the value (solver-chosen among zz07NumValues
 // kinds), and, when the field is omitempty (solver's choice), UnwriteEmptyObjectMember with
 // the name of the previous member that stayed (nil if none); EndObject. The encoder has
-// capacity c over a plain writer. Reference: an encoder (capacity 256) to which only the
+// capacity c over a plain writer (bbuf: a *bytes.Buffer of capacity c). Reference: an encoder (capacity 256) to which only the
 // members that stayed are written. The retraction happens iff the value is empty; after every
 // member both encoders account for the same bytes and the same stack (and pointer, with
 // ptr); the delivered output is the reference output. With an active namespace, a final probe
 // member named like one of the fields is accepted iff that field was retracted.
-func VerifC07Unwrite(pre, k, c, nameLen, ws int, nsDisabled, symNames, ptr, probe bool) {
-	wt, wb := zz07Sink(), zz07Sink()
+func VerifC07Unwrite(pre, k, c, nameLen, ws int, nsDisabled, symNames, ptr, probe, bbuf bool) {
+	var wt io.Writer
+	if bbuf {
+		wt = bytes.NewBuffer(make([]byte, 0, c))
+	} else {
+		wt = zz07Sink()
+	}
+	wb := zz07Sink()
 	et := zz07New(wt, c, ws, false)
 	eb := zz07New(wb, 256, ws, false)
 	// pre: what precedes the object, so that flushes may also fall before it:
@@ -396,7 +404,7 @@ func VerifC07Unwrite(pre, k, c, nameLen, ws int, nsDisabled, symNames, ptr, prob
 		}
 		if removed {
 			vrt.Cover("retracted")
-			if len(wt.got) > 0 {
+			if len(zz07Delivered(wt)) > 0 {
 				vrt.Cover("retracted-after-flush")
 			}
 		} else {
@@ -406,8 +414,8 @@ func VerifC07Unwrite(pre, k, c, nameLen, ws int, nsDisabled, symNames, ptr, prob
 			vrt.Assert("C07/unwrite/ref-name", eb.WriteToken(String(names[i])) == nil)
 			zz07Value(eb, v, nsDisabled, true)
 		}
-		vrt.Assert("C07/unwrite/output-equals-kept-members", bytes.Equal(zz07Cat(wt.got, et.s.Buf), zz07Cat(wb.got, eb.s.Buf)))
-		vrt.Assert("C07/unwrite/offset", et.OutputOffset() == eb.OutputOffset() && et.s.baseOffset == int64(len(wt.got)))
+		vrt.Assert("C07/unwrite/output-equals-kept-members", bytes.Equal(zz07Cat(zz07Delivered(wt), et.s.Buf), zz07Cat(wb.got, eb.s.Buf)))
+		vrt.Assert("C07/unwrite/offset", et.OutputOffset() == eb.OutputOffset() && et.s.baseOffset == int64(len(zz07Delivered(wt))))
 		vrt.Assert("C07/unwrite/state", zz07SameState(et, eb))
 		if ptr {
 			vrt.Assert("C07/unwrite/pointer", et.StackPointer() == eb.StackPointer())
@@ -435,8 +443,8 @@ func VerifC07Unwrite(pre, k, c, nameLen, ws int, nsDisabled, symNames, ptr, prob
 		op := zz07Draw(byte(ch), 0, 0, 0, 0)
 		vrt.Assert("C07/unwrite/postlude", zz07Do(et, op) == nil && zz07Do(eb, op) == nil)
 	}
-	vrt.Assert("C07/unwrite/delivered", len(et.s.Buf) == 0 && bytes.Equal(wt.got, wb.got))
-	vrt.Observe("out", wt.got)
+	vrt.Assert("C07/unwrite/delivered", len(et.s.Buf) == 0 && bytes.Equal(zz07Delivered(wt), wb.got))
+	vrt.Observe("out", zz07Delivered(wt))
 }
 
 // VerifC07UnwriteName replays the deterministic map marshaler (arshal_default.go): after
@@ -459,6 +467,7 @@ func VerifC07UnwriteName(n, c, nameLen, ws int, nsDisabled, ptr bool) {
 		keys[i] = string(vrt.Bytes("k"+zz07Itoa(i), nameLen))
 		var err error
 		if vrt.Bool("raw" + zz07Itoa(i)) {
+			vrt.Assume(zzspec.UTF8WellFormed([]byte(keys[i]))) // MinimalQuote would substitute U+FFFD
 			q := zzspec.MinimalQuote([]byte(keys[i]), false, false)
 			err = et.WriteValue(Value(q))
 		} else {
